@@ -149,6 +149,7 @@ int   sut_save(const void* inst, void* sbmem);           /* sbmem: serial_obj_si
 int   sut_load(void* inst, const void* sbmem);
 void  sut_serial_init(void* sbmem, int garbage);         /* construct buffer, optionally dirty it */
 void  sut_serial_bytes(const void* sbmem, uint8_t* out); /* copy serial_bytes data bytes          */
+int   sut_serial_compare(const void* a, const void* b); /* bit0: a == b, bit1: a != b (the buffers' own operators) */
 int   sut_replay_enter(void* inst, int dest);
 int   sut_replay_transition(void* inst, int dest);
 int   sut_attach_logger(void* inst, int on);
@@ -159,6 +160,7 @@ int   sut_is_active(const void* inst);                   /* manual: isActive(); 
 int   sut_previous(const void* inst, SutTrans* out);
 const void* sut_context_addr(const void* inst);
 uint64_t    sut_context_tag(const void* inst);
+void        sut_context_counts(uint32_t* copies, uint32_t* moves);   /* how often a value context was copy- / move-constructed so far */
 const void* sut_access_addr(void* inst, int idx);        /* &access<St<idx>>(); idx 255 = root    */
 
 #ifdef __cplusplus
